@@ -24,7 +24,7 @@ def enc_val(a):
                 continue
             if a.match.span(n) != (-1, -1):
                 caps.append("%s=%s" % (n, ".".join(str(ord(c)) for c in a.match.group(n))))
-        return "K:%d:%s" % (a.id, ";".join(caps))
+        return "K:%d:%s" % (a.id, ";".join(sorted(caps, key=lambda c: c.split("=")[0])))
     if isinstance(a, Time):
         return "T:" + enc_time(a)
     if isinstance(a, Interval):
